@@ -1516,7 +1516,45 @@ fn gen_template(rng: &mut Rng) -> String {
     let b = soup(rng, 6);
     let c = soup(rng, 4);
     const UNITS: &[&str] = &["ms", "sec", "seconds", "min", "minutes", "hour", "hours", "days", "m", ""];
-    let s = match rng.below(19) {
+    let s = match rng.below(23) {
+        // every numeric attribute of the query language filled from the hostile-number table
+        19 => format!(
+            "query \"Q\" {{\n goal: a == {}\n strategy: {}\n max-depth: {}\n max-solutions: {}\n enable-memoization: {}\n}}",
+            rng.pick(NUMS),
+            rng.pick(&["depth-first", "breadth-first", "iterative", &c]),
+            rng.pick(NUMS),
+            rng.pick(NUMS),
+            rng.pick(&["true", "false", "1", &c])
+        ),
+        20 => format!("query \"Q\" {{ goal: a == 1 max-depth:{} max-solutions:{} }}\nquery \"P\" {{ goal: b == 2\n max-depth: {}\n}}", rng.pick(NUMS), rng.pick(NUMS), rng.pick(NUMS)),
+        // module graphs in which many equal-length import paths lead to the same module
+        // (layers of `width` modules, each importing every module of the layer below, declared
+        // bottom-up so that every import is valid): plain text for a parser, a path explosion for
+        // any graph walk that forgets what it has seen
+        21 | 22 => {
+            let width = 2 + rng.below(2);
+            let layers = *rng.pick(&[3usize, 6, 12, 18, 24, 28, 32]);
+            let kind = *rng.pick(&["(rules *)", "(rules *)", "(all)", "(templates *)"]);
+            let mut t = String::new();
+            for w in 0..width {
+                t.push_str(&format!("defmodule M{}_{} {{\n export: all\n}}\n", layers, w));
+            }
+            'outer: for l in (1..layers).rev() {
+                for w in 0..width {
+                    let mut block = format!("defmodule M{}_{} {{\n", l, w);
+                    for v in 0..width {
+                        block.push_str(&format!(" import: M{}_{} {}\n", l + 1, v, kind));
+                    }
+                    block.push_str("}\n");
+                    if t.len() + block.len() + 60 > MAX_LEN {
+                        break 'outer;
+                    }
+                    t.push_str(&block);
+                }
+            }
+            t.push_str("rule \"Top\" { when a.b > 1 then a.c = true; }\n");
+            t
+        }
         16 => format!(
             "e: T from stream(\"s\") over window({} {}, {})",
             rng.pick(NUMS),
@@ -2682,7 +2720,7 @@ impl Check for C05 {
     }
     fn rule(&self) -> String {
         format!(
-            "Each input (UTF-8, <= 4096 bytes) is given to all 14 calls ({}) in a release and in a devopt (debug-assertions + overflow-checks) worker child on the main thread with an 8 MiB stack; evaluations = inputs, pairs::<profile> = (input, call) executions. Generators: raw bytes -> lossy UTF-8; token soup over GRL keywords/operators/delimiters/quotes/digits/multi-byte characters; valid frames of every input language with soup in the slots; 1-4 stacked mutations (splice, truncate, cut, duplicate, delete, swap, hostile character at a token boundary, replace, token insert/delete, short chain) of valid texts (every rule/query block of the repository's *.grl files plus hand-written seeds of all languages); bracket nesting of depth 1..=32 (balanced and unbalanced) around random token spans; short prefix chains (2..=64 repetitions) of {} units in {} contexts; arithmetic/logical expression trees of depth <= 4 over the keys of the small fact store, one in four with a hostile edit (run on the four expression calls only); stream patterns and joins from their grammar with hostile numbers, units and names (run on the two stream-pattern calls only) — all SAMPLED with the seed. SYSTEMATIC: a 2-, 3-, 4-byte or combining character inserted at every token boundary of the hand-written seeds (quick: one of the four per boundary; thorough: all four, plus the first 150 corpus texts of <= 400 bytes); every character-boundary truncation of selected seeds; the (unit x context) grid of prefix chains at the FULL 4 KiB length (quick: a sixth of the grid rotated by the seed; thorough: the whole grid). An input is non-trivial when at least one call returned a non-empty value or panicked/died (i.e. some parser engaged with it); distinct by input text.",
+            "Each input (UTF-8, <= 4096 bytes) is given to all 14 calls ({}) in a release and in a devopt (debug-assertions + overflow-checks) worker child on the main thread with an 8 MiB stack; evaluations = inputs, pairs::<profile> = (input, call) executions. Generators: raw bytes -> lossy UTF-8; token soup over GRL keywords/operators/delimiters/quotes/digits/multi-byte characters; valid frames of every input language with soup in the slots, query blocks with every numeric attribute drawn from the hostile-number table, and layered defmodule lattices (2-3 modules per layer, each importing every module of the layer below, 3..=32 layers as far as 4 KiB allow); 1-4 stacked mutations (splice, truncate, cut, duplicate, delete, swap, hostile character at a token boundary, replace, token insert/delete, short chain) of valid texts (every rule/query block of the repository's *.grl files plus hand-written seeds of all languages); bracket nesting of depth 1..=32 (balanced and unbalanced) around random token spans; short prefix chains (2..=64 repetitions) of {} units in {} contexts; arithmetic/logical expression trees of depth <= 4 over the keys of the small fact store, one in four with a hostile edit (run on the four expression calls only); stream patterns and joins from their grammar with hostile numbers, units and names (run on the two stream-pattern calls only) — all SAMPLED with the seed. SYSTEMATIC: a 2-, 3-, 4-byte or combining character inserted at every token boundary of the hand-written seeds (quick: one of the four per boundary; thorough: all four, plus the first 150 corpus texts of <= 400 bytes); every character-boundary truncation of selected seeds; the (unit x context) grid of prefix chains at the FULL 4 KiB length (quick: a sixth of the grid rotated by the seed; thorough: the whole grid). An input is non-trivial when at least one call returned a non-empty value or panicked/died (i.e. some parser engaged with it); distinct by input text.",
             ENTRIES.join(", "),
             CHAIN_UNITS.len(),
             CHAIN_CONTEXTS.len()
